@@ -236,6 +236,7 @@ fn main() {
         "C08" => { vh::c08::check(&rep); rep.finish(vh::c08::RULE, vh::c08::ASSUME, vh::c08::SITUATIONS) }
         "C01" => { vh::c01::check(&rep); rep.finish(vh::c01::RULE, vh::c01::ASSUME, vh::c01::SITUATIONS) }
         "C02" => { vh::c02::check(&rep); rep.finish(vh::c02::RULE, vh::c02::ASSUME, vh::c02::SITUATIONS) }
+        "C10" => { vh::c10::check(&rep); rep.finish(vh::c10::RULE, vh::c10::ASSUME, vh::c10::SITUATIONS) }
         "C16" => { vh::c16::check(&rep); rep.finish(vh::c16::RULE, vh::c16::ASSUME, vh::c16::SITUATIONS) }
         _ => { eprintln!("unknown property {}", id); 2 }
     };
